@@ -715,6 +715,8 @@ class SymReader:
                 cx = ctx()
                 avail = c.zlen()
                 k = cx.case([avail >= need] + [avail == j for j in range(need)], "read-tail")
+                for i in range(need):
+                    cx.assume(z3.And(z3.Select(c.arr, i) >= 0, z3.Select(c.arr, i) < 256))     # they are bytes
                 if k == 0:
                     out += [mk_int(z3.Select(c.arr, i)) for i in range(need)]
                     j = z3.FreshInt("k")
